@@ -245,14 +245,13 @@ Qed.
 
 Lemma c03_snapshot_lem : forall pre e post s t rs,
   run step init (pre ++ e :: post) = Some s -> e_k e = KDrainSnapshot t rs ->
-  (forall r, In r (map fst rs) -> open_in pre t r) /\
-  (NoDup (map fst rs) -> forall r, open_in pre t r -> In r (map fst rs)).
+  NoDup (map fst rs) /\ forall r, In r (map fst rs) <-> open_in pre t r.
 Proof.
   intros pre e post s t rs Hrun Hk. destruct (run_app _ _ _ _ _ _ Hrun) as (s1 & s2 & Ha & He & _).
-  destruct (step_KDrainSnapshot _ _ _ _ _ He Hk) as (x & d & Hx & _ & _ & Hlen & Hsub & _).
-  split.
-  - intros r Hr. apply (inflight_spec _ _ _ _ r Ha Hx). auto.
-  - intros Hnd r Hr. apply (inflight_spec _ _ _ _ r Ha Hx) in Hr.
+  destruct (step_KDrainSnapshot _ _ _ _ _ He Hk) as (x & d & Hx & _ & _ & Hlen & Hsub & Hnd & _).
+  split; auto. intros r. split.
+  - intros Hr. apply (inflight_spec _ _ _ _ r Ha Hx). auto.
+  - intros Hr. apply (inflight_spec _ _ _ _ r Ha Hx) in Hr.
     assert (Hincl : incl (t_inflight x) (map fst rs)).
     { apply NoDup_length_incl; [exact Hnd | rewrite map_length; lia | intros y Hy; auto]. }
     auto.
@@ -322,37 +321,34 @@ Qed.
 
 (** upgraded connections are cut as soon as draining begins: at an accepted snapshot the
     flag of an entry says exactly "the target answered 101", every flagged entry is
-    cancelled in the resulting state, and (snapshot without duplicates) every upgraded
-    request in flight on t is such an entry *)
+    cancelled in the resulting state, and every upgraded request in flight on t is such an entry *)
 Lemma c03_upgraded_lem : forall pre e post s t rs,
   run step init (pre ++ e :: post) = Some s -> e_k e = KDrainSnapshot t rs ->
   exists s1 s2 x, run step init pre = Some s1 /\ step s1 e = Some s2 /\ nget (targets s1) t = Some x /\
     (forall r h, In (r, h) rs -> (h = true <-> exists t', phase_of s1 r = Some (PReplied t' 101%N))) /\
     (forall r, In (r, true) rs -> cancelled s2 r = true /\ phase_of s1 r = Some (PReplied t 101%N)) /\
-    (NoDup (map fst rs) -> forall r, In r (t_inflight x) -> phase_of s1 r = Some (PReplied t 101%N) ->
+    (forall r, In r (t_inflight x) -> phase_of s1 r = Some (PReplied t 101%N) ->
        In (r, true) rs /\ cancelled s2 r = true).
 Proof.
   intros pre e post s t rs Hrun Hk. destruct (run_app _ _ _ _ _ _ Hrun) as (s1 & s2 & Ha & He & _).
-  destruct (step_KDrainSnapshot _ _ _ _ _ He Hk) as (x & d & Hx & Hd & _ & Hlen & Hsub & Hflg & Hs2).
-  exists s1, s2, x. repeat split; auto.
-  - intros ->. apply upgraded_phase. symmetry. eauto.
-  - intros Hp. apply upgraded_phase in Hp. rewrite (Hflg _ _ H). auto.
-  - subst s2. norm. apply orb_true_iff. right. apply andb_true_iff. split; [now apply hij_in_In|].
-    pose proof (Hflg _ _ H) as Hu. symmetry in Hu. apply upgraded_phase in Hu. destruct Hu as (t' & Hu).
-    unfold phase_of in Hu. destruct (nget (reqs s1) r); congruence.
-  - pose proof (Hflg _ _ H) as Hu. symmetry in Hu. apply upgraded_phase in Hu. destruct Hu as (t' & Hu).
+  destruct (step_KDrainSnapshot _ _ _ _ _ He Hk) as (x & d & Hx & Hd & _ & Hlen & Hsub & Hnd & Hflg & Hs2).
+  assert (Hcut : forall r, In (r, true) rs -> cancelled s2 r = true).
+  { intros r Hi. subst s2. norm. apply orb_true_iff. right. apply andb_true_iff. split; [now apply hij_in_In|].
+    pose proof (Hflg _ _ Hi) as Hu. symmetry in Hu. apply upgraded_phase in Hu. destruct Hu as (t' & Hu).
+    unfold phase_of in Hu. destruct (nget (reqs s1) r); congruence. }
+  exists s1, s2, x. split; auto. split; auto. split; auto. split; [|split].
+  - intros r h Hi. split.
+    + intros ->. apply upgraded_phase. symmetry. eauto.
+    + intros Hp. apply upgraded_phase in Hp. rewrite (Hflg _ _ Hi). auto.
+  - intros r Hi. split; auto.
+    pose proof (Hflg _ _ Hi) as Hu. symmetry in Hu. apply upgraded_phase in Hu. destruct Hu as (t' & Hu).
     assert (Hin : In r (t_inflight x)) by (apply Hsub; apply in_map_iff; exists (r, true); auto).
     destruct (invB_run _ _ Ha _ _ _ Hx Hin) as (p & Hp' & Ho). rewrite Hu in Hp'. inj_some. cbn in Ho. congruence.
-  - assert (Hincl : incl (t_inflight x) (map fst rs)).
-    { apply NoDup_length_incl; [assumption | rewrite map_length; lia | intros y Hy; auto]. }
-    apply Hincl in H0. apply in_map_iff in H0. destruct H0 as ([r' h] & Hr' & Hi). cbn in Hr'. subst r'.
-    assert (h = true). { rewrite (Hflg _ _ Hi). apply upgraded_phase. eauto. } subst h. exact Hi.
-  - assert (Hincl : incl (t_inflight x) (map fst rs)).
-    { apply NoDup_length_incl; [assumption | rewrite map_length; lia | intros y Hy; auto]. }
-    apply Hincl in H0. apply in_map_iff in H0. destruct H0 as ([r' h] & Hr' & Hi). cbn in Hr'. subst r'.
-    assert (h = true). { rewrite (Hflg _ _ Hi). apply upgraded_phase. eauto. } subst h.
-    subst s2. norm. apply orb_true_iff. right. apply andb_true_iff. split; [now apply hij_in_In|].
-    unfold phase_of in H1. destruct (nget (reqs s1) r); congruence.
+  - intros r Hin Hp.
+    assert (Hincl : incl (t_inflight x) (map fst rs)).
+    { apply NoDup_length_incl; [exact Hnd | rewrite map_length; lia | intros y Hy; auto]. }
+    apply Hincl in Hin. apply in_map_iff in Hin. destruct Hin as ([r' h] & Hr' & Hi). cbn in Hr'. subst r'.
+    assert (h = true). { rewrite (Hflg _ _ Hi). apply upgraded_phase. eauto. } subst h. auto.
 Qed.
 
 (** only upgraded connections are cut by a snapshot *)
